@@ -551,6 +551,21 @@ func runHLL(c *Ctx) *Violation {
 		if err != nil {
 			return "MarshalBinary: " + err.Error()
 		}
+		// every register holds the position of a leading one bit in
+		// bits-p bits: 0 .. bits-p+1
+		{
+			dec := gob.NewDecoder(bytes.NewReader(enc))
+			var size, pp uint8
+			var hname string
+			var reg []byte
+			if dec.Decode(&size) == nil && dec.Decode(&hname) == nil && dec.Decode(&pp) == nil && dec.Decode(&reg) == nil {
+				for i, r := range reg {
+					if int(r) > bits-int(pp)+1 {
+						return fmt.Sprintf("register %d holds %d, more than a %d-bit hash leaves at precision %d (at most %d)", i, r, bits, pp, bits-int(pp)+1)
+					}
+				}
+			}
+		}
 		z := zeroSketch(bits)
 		if err := z.UnmarshalBinary(enc); err != nil {
 			return "its own encoding does not decode: " + err.Error()
